@@ -450,6 +450,19 @@ class Content(object):
         return self._callc("simplify")
 
 
+def _stoi(s):
+    """std::stoi: optional whitespace, optional sign, decimal digits; trailing text ignored; ValueError if none"""
+    import re
+
+    m = re.match(r"\s*([+-]?\d+)", s)
+    if m is None:
+        raise ValueError("stoi")
+    v = int(m.group(1))
+    if not (-2 ** 31 <= v < 2 ** 31):
+        raise IndexError("stoi: out of range")
+    return v
+
+
 def _content_arg(obj):
     if isinstance(obj, Record):
         raise ValueError("content argument must be a Content subtype (excluding Record)" + FILENAME_SUFFIX)
@@ -486,6 +499,13 @@ class Iterator(object):
             self._records = c._shallow_copy()
             self._items = None
             self._n = len(c)
+            self._rows = None
+            if len(c._contents) != 0 and self._n != 0:
+                # one request for all rows of all fields: Record.field(j) of the yielded records is answered
+                # from it (same values as contents[j].getitem_at_nowrap(at), without re-sending the array per row)
+                with core.request_scope():
+                    t = core.request("call iter_fields " + c._sx(False))
+                    self._rows = [[fromsx(x) for x in col] for col in t]
         else:
             self._records = None
             with core.request_scope():
@@ -502,7 +522,10 @@ class Iterator(object):
         i = self._at
         self._at += 1
         if self._records is not None:
-            return Record._wrap(self._records, i)
+            rec = Record._wrap(self._records, i)
+            if self._rows is not None:
+                rec._fields_cache = [col[i] for col in self._rows]
+            return rec
         return self._items[i]
 
     next = __next__
@@ -1049,6 +1072,53 @@ class RecordArray(Content):
     def fielditems(self):
         return list(zip(self.keys(), self._contents))
 
+    # RecordArray's own field bookkeeping is util::fieldindex/key/haskey/keys over (recordlookup, numfields):
+    # plain list look-ups, done natively (they are hit once per record when iterating)
+    @property
+    def numfields(self):
+        return len(self._contents)
+
+    def keys(self):
+        if self._recordlookup is not None:
+            return list(self._recordlookup)
+        return [str(j) for j in range(len(self._contents))]
+
+    def fieldindex(self, key):
+        if not isinstance(key, str):
+            raise TypeError("fieldindex(): key must be a string")
+        n = len(self._contents)
+        if self._recordlookup is not None:
+            for i, k in enumerate(self._recordlookup):
+                if k == key:
+                    return i
+        try:
+            out = _stoi(key)
+        except ValueError:
+            raise ValueError("key " + json.dumps(key) + " does not exist (not in record)" + FILENAME_SUFFIX)
+        if not (0 <= out < n):
+            raise ValueError("key interpreted as fieldindex " + key + " for records with only " + str(n) + " fields" + FILENAME_SUFFIX)
+        return out
+
+    def key(self, fieldindex):
+        i = operator.index(fieldindex)
+        n = len(self._contents)
+        if i >= n:
+            raise ValueError("fieldindex " + str(i) + " for records with only " + str(n) + " fields" + FILENAME_SUFFIX)
+        if self._recordlookup is not None:
+            return self._recordlookup[i]
+        return str(i)
+
+    def haskey(self, key):
+        try:
+            self.fieldindex(key)
+        except ValueError:
+            return False
+        return True
+
+    def purelist_parameter(self, key):
+        # Content::purelist_parameter -> RecordForm::purelist_parameter == parameter(key)
+        return self.parameter(key)
+
     @property
     def astuple(self):
         return RecordArray._wrap(list(self._contents), None, self._length, self._identities, dict(self._params))
@@ -1173,10 +1243,18 @@ class Record(object):
     def keys(self):
         return self._array.keys()
 
+    _fields_cache = None  # filled by Iterator (values of Record::field(j), fetched in bulk)
+
     def field(self, where):
+        if self._fields_cache is not None:
+            j = self._array.fieldindex(where) if isinstance(where, str) else operator.index(where)
+            if 0 <= j < len(self._fields_cache):
+                return self._fields_cache[j]
         return self._array.field(where).getitem_at_nowrap(self._at)
 
     def fields(self):
+        if self._fields_cache is not None:
+            return list(self._fields_cache)
         return [c.getitem_at_nowrap(self._at) for c in self._array._contents]
 
     def fielditems(self):
